@@ -45,12 +45,13 @@ VARIABLES l,     \* next line
           have,  \* gs is defined
           rt,    \* the next decode is the second half of a round trip
           res,   \* the results of the Fix calls of this case that the harness keeps (expected values)
-          bigok  \* digest mode: the last encodebig event passed every check
-vars == <<l, enc, gs, have, rt, res, bigok>>
+          bigok, \* digest mode: the last encodebig event passed every check
+          encs   \* call histories: the Encode results handed out so far, as logged when handed out
+vars == <<l, enc, gs, have, rt, res, bigok, encs>>
 
 E == Trace[l]
 NoEnc == [fmt |-> -1, loca |-> <<>>, glyf |-> <<>>]
-Init == l = 1 /\ enc = NoEnc /\ gs = <<>> /\ have = FALSE /\ rt = FALSE /\ res = <<>> /\ bigok = FALSE
+Init == l = 1 /\ enc = NoEnc /\ gs = <<>> /\ have = FALSE /\ rt = FALSE /\ res = <<>> /\ bigok = FALSE /\ encs = <<>>
         /\ TLCSet(1, 0) /\ TLCSet(2, 0) /\ TLCSet(3, 0)
 Consume == l' = l + 1 /\ TLCSet(1, l)
 Is(ev) == l <= Len(Trace) /\ E.ev = ev
@@ -85,12 +86,12 @@ GlyphsOf(e) == IF e.isrle THEN ExpandRLE(e.rle) ELSE e.glyphs
 Reset ==
   /\ Is("reset")
   /\ enc' = [fmt |-> E.fmt, loca |-> E.loca, glyf |-> E.glyf]
-  /\ gs' = <<>> /\ have' = FALSE /\ rt' = FALSE /\ res' = <<>>
+  /\ gs' = <<>> /\ have' = FALSE /\ rt' = FALSE /\ res' = <<>> /\ encs' = <<>>
   /\ UNCHANGED bigok /\ Consume
 
 ResetLib ==
   /\ Is("resetlib")
-  /\ enc' = NoEnc /\ gs' = GlyphsOf(E) /\ have' = TRUE /\ rt' = FALSE /\ res' = <<>>
+  /\ enc' = NoEnc /\ gs' = GlyphsOf(E) /\ have' = TRUE /\ rt' = FALSE /\ res' = <<>> /\ encs' = <<>>
   /\ UNCHANGED bigok /\ Consume
 
 (* The checks are state-level operators compared with TRUE inside the actions: TLC then evaluates   *)
@@ -115,32 +116,36 @@ Decode ==
   /\ DecodeOK = TRUE
   /\ gs' = IF E.ok THEN GlyphsOf(E) ELSE <<>>
   /\ have' = E.ok /\ rt' = FALSE
-  /\ UNCHANGED <<enc, res, bigok>> /\ Consume
+  /\ UNCHANGED <<enc, res, bigok, encs>> /\ Consume
 
 RecordOK(rec, g) == LET d == DecodeGlyph(rec) IN d.ok /\ Represents(g, d)
+\* E.rev: the glyphs were encoded in reverse order (another glyph set, call histories);
+\* E.keep: the harness keeps the result and looks at it again after every later call
 EncodeOK ==
   IF ~have THEN NoDemand
-  ELSE /\ Check(~E.panic, "encode:panic")
+  ELSE LET src == IF E.rev THEN Reverse(gs) ELSE gs IN
+       /\ Check(~E.panic, "encode:panic")
        /\ ~E.panic =>
            LET p    == ParseLoca(E.fmt, E.loca)
                offs == IF p.ok THEN [i \in 1..Len(p.offs) |-> p.offs[i]] ELSE <<>>   \* materialised once
                glyf == E.glyf
            IN /\ Check(p.ok, "encode:loca-format")
               /\ p.ok =>
-                   /\ Check(Len(offs) = Len(gs) + 1, "encode:loca-count")
+                   /\ Check(Len(offs) = Len(src) + 1, "encode:loca-count")
                    /\ Check(Monotone(offs), "encode:loca-order")
                    /\ Check(AllEven(offs), "encode:loca-even")
                    /\ Check(Inside(offs, Len(glyf)), "encode:loca-inside")
-                   /\ (Len(offs) = Len(gs) + 1 /\ Monotone(offs) /\ Inside(offs, Len(glyf))) =>
-                        CheckAll(Len(gs), LAMBDA i : RecordOK(SubSeq(glyf, offs[i] + 1, offs[i + 1]), gs[i]),
+                   /\ (Len(offs) = Len(src) + 1 /\ Monotone(offs) /\ Inside(offs, Len(glyf))) =>
+                        CheckAll(Len(src), LAMBDA i : RecordOK(SubSeq(glyf, offs[i] + 1, offs[i + 1]), src[i]),
                                  "encode:glyph-data")
 
 Encode ==
   /\ Is("encode")
   /\ EncodeOK = TRUE
-  /\ enc' = IF E.panic THEN NoEnc ELSE [fmt |-> E.fmt, loca |-> E.loca, glyf |-> E.glyf]
-  /\ rt' = have
-  /\ UNCHANGED <<gs, have, res>> /\ UNCHANGED bigok /\ Consume
+  /\ enc' = IF E.rev THEN enc ELSE IF E.panic THEN NoEnc ELSE [fmt |-> E.fmt, loca |-> E.loca, glyf |-> E.glyf]
+  /\ rt' = IF E.rev THEN rt ELSE have
+  /\ encs' = IF E.keep /\ ~E.panic THEN Append(encs, [fmt |-> E.fmt, loca |-> E.loca, glyf |-> E.glyf]) ELSE encs
+  /\ UNCHANGED <<gs, have, res, bigok>> /\ Consume
 
 \* SimpleGlyph.Decode on glyph E.i (0-based)
 SimpleOK ==
@@ -158,7 +163,7 @@ SimpleOK ==
 Simple ==
   /\ Is("simple")
   /\ SimpleOK = TRUE
-  /\ UNCHANGED <<enc, gs, have, rt, res>> /\ UNCHANGED bigok /\ Consume
+  /\ UNCHANGED <<enc, gs, have, rt, res>> /\ UNCHANGED <<bigok, encs>> /\ Consume
 
 CompsOK ==
   IF ~have \/ E.i + 1 > Len(gs) THEN NoDemand
@@ -171,7 +176,7 @@ CompsOK ==
 Comps ==
   /\ Is("comps")
   /\ CompsOK = TRUE
-  /\ UNCHANGED <<enc, gs, have, rt, res>> /\ UNCHANGED bigok /\ Consume
+  /\ UNCHANGED <<enc, gs, have, rt, res>> /\ UNCHANGED <<bigok, encs>> /\ Consume
 
 FixOK ==
   IF ~have \/ E.i + 1 > Len(gs) THEN NoDemand
@@ -189,28 +194,37 @@ Fix ==
   /\ FixOK = TRUE
   /\ res' = IF ~E.keep THEN res
             ELSE Append(res, IF FixDemand THEN FixValue(gs[E.i + 1], E.map) ELSE E.glyph)
-  /\ UNCHANGED <<enc, gs, have, rt>> /\ UNCHANGED bigok /\ Consume
+  /\ UNCHANGED <<enc, gs, have, rt>> /\ UNCHANGED <<bigok, encs>> /\ Consume
 
 \* the caller stores result E.k (0-based) as glyph E.i (0-based): an input step, nothing to check
 Put ==
   /\ Is("put")
   /\ gs' = IF have /\ E.i + 1 <= Len(gs) /\ E.k + 1 <= Len(res) THEN [gs EXCEPT ![E.i + 1] = res[E.k + 1]] ELSE gs
-  /\ UNCHANGED <<enc, have, rt, res>> /\ UNCHANGED bigok /\ Consume
+  /\ UNCHANGED <<enc, have, rt, res>> /\ UNCHANGED <<bigok, encs>> /\ Consume
 
 \* History: FixComponents (and every other call) leaves the glyph set it was applied to and all
 \* earlier results unchanged -- "component lists are reported and rewritten exactly, component
 \* records preserved bit for bit" holds for the glyphs the caller still holds, not only for the
 \* value returned last.
+RedecOK(r, e) ==
+  LET d == DecodeSet(e.fmt, e.loca, e.glyf) IN
+  d.ok => /\ r.ok /\ Len(r.glyphs) = Len(d.d)
+          /\ \A i \in 1..Len(d.d) : Represents(r.glyphs[i], d.d[i])
 ObserveOK ==
   IF ~have THEN NoDemand
   ELSE /\ Check(E.glyphs = gs, "history:glyph-set-changed-by-a-call")
        /\ Check(E.results = res, "history:earlier-fixcomponents-result-changed")
        /\ Check(Len(E.comps) = Len(gs) /\ \A i \in 1..Len(gs) : E.comps[i] = ComponentIds(gs[i]),
                 "history:components-list-changed")
+       \* every Encode result handed out: the same bytes as when it was handed out, and a fresh
+       \* Decode of it returns what the spec decodes from those bytes
+       /\ Check(E.encs = encs, "history:earlier-encode-result-changed")
+       /\ Len(E.redec) = Len(encs) =>
+            CheckAll(Len(encs), LAMBDA k : RedecOK(E.redec[k], encs[k]), "history:earlier-encode-result-decodes-differently")
 Observe ==
   /\ Is("observe")
   /\ ObserveOK = TRUE
-  /\ UNCHANGED <<enc, gs, have, rt, res>> /\ UNCHANGED bigok /\ Consume
+  /\ UNCHANGED <<enc, gs, have, rt, res>> /\ UNCHANGED <<bigok, encs>> /\ Consume
 
 RecheckOK ==
   IF ~have \/ E.i + 1 > Len(gs) THEN NoDemand
@@ -219,13 +233,13 @@ RecheckOK ==
 Recheck ==
   /\ Is("recheck")
   /\ RecheckOK = TRUE
-  /\ UNCHANGED <<enc, gs, have, rt, res>> /\ UNCHANGED bigok /\ Consume
+  /\ UNCHANGED <<enc, gs, have, rt, res>> /\ UNCHANGED <<bigok, encs>> /\ Consume
 
 \* ---- digest mode (glyf tables beyond what can be logged) ----
 \* a digest: [k, nc, bbox, blen, bsum]; the record of a non-empty glyph has 10 + blen bytes plus padding
 ResetBig ==
   /\ Is("resetbig")
-  /\ enc' = NoEnc /\ gs' = E.glyphs /\ have' = TRUE /\ rt' = FALSE /\ res' = <<>> /\ bigok' = FALSE
+  /\ enc' = NoEnc /\ gs' = E.glyphs /\ have' = TRUE /\ rt' = FALSE /\ res' = <<>> /\ bigok' = FALSE /\ encs' = <<>>
   /\ l' = l + 1 /\ TLCSet(1, l)
 
 BigOffs == LET p == ParseLoca(E.fmt, E.loca) IN IF p.ok THEN SubSeq(p.offs, 1, Len(p.offs)) ELSE <<>>
@@ -252,7 +266,7 @@ EncodeBig ==
   /\ Is("encodebig")
   /\ (IF have THEN EncodeBigOK ELSE NoDemand) = TRUE
   /\ bigok' = (have /\ EncodeBigGood)
-  /\ UNCHANGED <<enc, gs, have, rt, res>>
+  /\ UNCHANGED <<enc, gs, have, rt, res, encs>>
   /\ l' = l + 1 /\ TLCSet(1, l)
 
 \* the encoder's tables passed every check and hold library-encoded glyphs: decoding them must
@@ -265,7 +279,7 @@ DecodeBigOK ==
 DecodeBig ==
   /\ Is("decodebig")
   /\ DecodeBigOK = TRUE
-  /\ UNCHANGED <<enc, gs, have, rt, res, bigok>>
+  /\ UNCHANGED <<enc, gs, have, rt, res, bigok, encs>>
   /\ l' = l + 1 /\ TLCSet(1, l)
 
 Next == ResetBig \/ EncodeBig \/ DecodeBig \/ Reset \/ ResetLib \/ Decode \/ Encode \/ Simple \/ Comps \/ Fix \/ Put \/ Observe \/ Recheck
